@@ -9,6 +9,8 @@ HDR.STEER-LOOKUP  the post-section VERS/WRAP/NULL/DLM lookups are membership-gua
 """
 import ast
 
+from sa.astutil import ordn
+
 from sa import AnalysisError
 from sa.astutil import parents, protecting_try, in_block, unparse, enclosing
 from sa.cfg import build_cfg, is_catch_all, is_exc_label
@@ -37,7 +39,7 @@ def _line_loop(p):
     if not loops:
         raise AnalysisError("no loop calling read_line/read_header_line found in %s" % SECTION_FN)
     # innermost loop containing the call
-    loops.sort(key=lambda lc: -lc[0].lineno)
+    loops.sort(key=lambda lc: -ordn(lc[0]))
     return fi, loops[0][0], loops[0][1]
 
 
